@@ -32,14 +32,15 @@ class Gen:
     """Token-level program generator.  `toks` is a list of (text, kind) with kind in
     name / keyword / number / string / symbol / istr."""
 
-    def __init__(self, rng, luau=True, markers=None, avoid_known=False):
+    def __init__(self, rng, luau=True, markers=None, avoid_known=False, module=False):
         self.rng = rng
+        self.module = module      # a required module: no top-level `...`, no top-level return (the caller adds one)
         self.avoid_known = avoid_known
         self.luau = luau
         self.toks = []
         self.depth = 0
         self.loop = 0
-        self.vararg = [True]      # main chunk is vararg
+        self.vararg = [not module]      # main chunk is vararg
         self.markers = markers    # optional callable producing a literal token text (C04)
         self.fold = 0             # > 0 inside an operator / if-expression (constant folding may re-create literals)
         self.features = set()
@@ -453,7 +454,9 @@ class Gen:
                 self.features.add("semicolon")
                 self.t(";")
         r = self.rng.randrange(8)
-        if r == 0 or (top and r <= 2):
+        if top and self.module:
+            pass
+        elif r == 0 or (top and r <= 2):
             self.features.add("return")
             self.t("return")
             if self.chance(3, 4):
@@ -629,8 +632,8 @@ def plain_statement_layout(toks, rng, newline="\n"):
 
 
 def program(rng, luau=True, mode="random", newline="\n", comments=True, final_newline=None, markers=None, density=3,
-            avoid_known=False):
-    g = Gen(rng, luau=luau, markers=markers, avoid_known=avoid_known)
+            avoid_known=False, module=False):
+    g = Gen(rng, luau=luau, markers=markers, avoid_known=avoid_known, module=module)
     toks = g.program()
     lay = Layout(rng, mode=mode, newline=newline, comments=comments, final_newline=final_newline, density=density,
                  avoid_known=avoid_known)
